@@ -33,7 +33,8 @@ def spawn(prop_id, tier, seed, shard, nshards, out, replay=None, pyflags=()):
     if replay:
         cmd += ["--replay", str(replay)]
     e = dict(os.environ)
-    e["PYTHONHASHSEED"] = "0"
+    # set/dict iteration order of str- and enum-keyed containers differs between shards (and is still reproducible)
+    e["PYTHONHASHSEED"] = str((seed * 131 + shard * 17) % 4_000_000_000)
     e["PYTHONPATH"] = str(env.VERIF)
     e["PYTHONDONTWRITEBYTECODE"] = "1"
     e.setdefault("TZ", "UTC")
